@@ -1399,4 +1399,332 @@ func above(lower *State, id uint64) bool {
 		return lower, nil
 	}
 `},
+	// extract function (the probe of the middle and both neighbour scans live in one helper with early returns)
+	{Name: "b-search-probe-helper-all", File: "replication/search.go",
+		Find: `func findInRange(ctx context.Context, s *stater, lower, upper *State, timestamp time.Time) (*State, error) {
+	// we do a binary search through the range to find the sequence number
+	for lower.SeqNum+1 < upper.SeqNum {
+		// could do better here
+		splitID := (lower.SeqNum + upper.SeqNum) / 2
+
+		split, err := s.State(ctx, splitID)
+		if err != nil && !NotFound(err) {
+			return nil, err
+		}
+
+		if split == nil {
+			// file missing, search the next towards lower
+			sID := splitID - 1
+
+			for split == nil && lower.SeqNum < sID {
+				split, err = s.State(ctx, sID)
+				if err != nil && !NotFound(err) {
+					return nil, err
+				}
+
+				sID--
+			}
+		}
+
+		if split == nil {
+			// still missing? search the next towards upper
+			sID := splitID + 1
+
+			for split == nil && sID < upper.SeqNum {
+				split, err = s.State(ctx, sID)
+				if err != nil && !NotFound(err) {
+					return nil, err
+				}
+
+				sID++
+			}
+		}
+
+		if split == nil {
+			// nothing between lower and upper, so upper is
+			// the first state at or after the timestamp.
+			return upper, nil
+		}
+
+		// set the new boundary
+		if timestamp.After(split.Timestamp) {
+			lower = split
+		} else {
+			upper = split
+		}
+	}
+
+	// timestamp is now between lower and upper, we want to return the upper.
+	return upper, nil
+}
+`,
+		Replace: `func findInRange(ctx context.Context, s *stater, lower, upper *State, timestamp time.Time) (*State, error) {
+	// we do a binary search through the range to find the sequence number
+	for lower.SeqNum+1 < upper.SeqNum {
+		// could do better here
+		splitID := (lower.SeqNum + upper.SeqNum) / 2
+
+		split, err := nearestState(ctx, s, lower.SeqNum, splitID, upper.SeqNum)
+		if err != nil {
+			return nil, err
+		}
+
+		if split == nil {
+			// nothing between lower and upper, so upper is
+			// the first state at or after the timestamp.
+			return upper, nil
+		}
+
+		// set the new boundary
+		if timestamp.After(split.Timestamp) {
+			lower = split
+		} else {
+			upper = split
+		}
+	}
+
+	// timestamp is now between lower and upper, we want to return the upper.
+	return upper, nil
+}
+
+// nearestState returns the state at splitID or, if that file is missing, the first available one stepping
+// down towards lowerID and after that stepping up towards upperID, both exclusive.
+func nearestState(ctx context.Context, s *stater, lowerID, splitID, upperID uint64) (*State, error) {
+	split, err := s.State(ctx, splitID)
+	if err != nil && !NotFound(err) {
+		return nil, err
+	}
+	if split != nil {
+		return split, nil
+	}
+
+	// file missing, search the next towards lower
+	for id := splitID - 1; lowerID < id; id-- {
+		split, err = s.State(ctx, id)
+		if err != nil && !NotFound(err) {
+			return nil, err
+		}
+		if split != nil {
+			return split, nil
+		}
+	}
+
+	// still missing? search the next towards upper
+	for id := splitID + 1; id < upperID; id++ {
+		split, err = s.State(ctx, id)
+		if err != nil && !NotFound(err) {
+			return nil, err
+		}
+		if split != nil {
+			return split, nil
+		}
+	}
+
+	return nil, nil
+}
+`},
+	// extract function (probe and downward scan in a helper, upward scan inline)
+	{Name: "b-search-probe-helper-mixed", File: "replication/search.go",
+		Find: `func findInRange(ctx context.Context, s *stater, lower, upper *State, timestamp time.Time) (*State, error) {
+	// we do a binary search through the range to find the sequence number
+	for lower.SeqNum+1 < upper.SeqNum {
+		// could do better here
+		splitID := (lower.SeqNum + upper.SeqNum) / 2
+
+		split, err := s.State(ctx, splitID)
+		if err != nil && !NotFound(err) {
+			return nil, err
+		}
+
+		if split == nil {
+			// file missing, search the next towards lower
+			sID := splitID - 1
+
+			for split == nil && lower.SeqNum < sID {
+				split, err = s.State(ctx, sID)
+				if err != nil && !NotFound(err) {
+					return nil, err
+				}
+
+				sID--
+			}
+		}
+
+		if split == nil {
+			// still missing? search the next towards upper
+			sID := splitID + 1
+
+			for split == nil && sID < upper.SeqNum {
+				split, err = s.State(ctx, sID)
+				if err != nil && !NotFound(err) {
+					return nil, err
+				}
+
+				sID++
+			}
+		}
+
+		if split == nil {
+			// nothing between lower and upper, so upper is
+			// the first state at or after the timestamp.
+			return upper, nil
+		}
+
+		// set the new boundary
+		if timestamp.After(split.Timestamp) {
+			lower = split
+		} else {
+			upper = split
+		}
+	}
+
+	// timestamp is now between lower and upper, we want to return the upper.
+	return upper, nil
+}
+`,
+		Replace: `func findInRange(ctx context.Context, s *stater, lower, upper *State, timestamp time.Time) (*State, error) {
+	// we do a binary search through the range to find the sequence number
+	for lower.SeqNum+1 < upper.SeqNum {
+		// could do better here
+		splitID := (lower.SeqNum + upper.SeqNum) / 2
+
+		split, err := stateAtOrBelow(ctx, s, lower, splitID)
+		if err != nil {
+			return nil, err
+		}
+
+		if split == nil {
+			// still missing? search the next towards upper
+			sID := splitID + 1
+
+			for split == nil && sID < upper.SeqNum {
+				split, err = s.State(ctx, sID)
+				if err != nil && !NotFound(err) {
+					return nil, err
+				}
+
+				sID++
+			}
+		}
+
+		if split == nil {
+			// nothing between lower and upper, so upper is
+			// the first state at or after the timestamp.
+			return upper, nil
+		}
+
+		// set the new boundary
+		if timestamp.After(split.Timestamp) {
+			lower = split
+		} else {
+			upper = split
+		}
+	}
+
+	// timestamp is now between lower and upper, we want to return the upper.
+	return upper, nil
+}
+
+// stateAtOrBelow returns the state at splitID or, if that file is missing, the first available one below it and above lower.
+func stateAtOrBelow(ctx context.Context, s *stater, lower *State, splitID uint64) (*State, error) {
+	st, err := s.State(ctx, splitID)
+	if err != nil && !NotFound(err) {
+		return nil, err
+	}
+
+	for id := splitID - 1; st == nil && lower.SeqNum < id; id-- {
+		st, err = s.State(ctx, id)
+		if err != nil && !NotFound(err) {
+			return nil, err
+		}
+	}
+
+	return st, nil
+}
+`},
+	// named results with bare returns in the lower-bound finder
+	{Name: "b-findbound-named-results", File: "replication/search.go",
+		Find: `func findBound(ctx context.Context, s *stater, upper *State, timestamp time.Time) (*State, *State, error) {
+	var (
+		lowerID uint64 = 1
+		lower   *State
+		err     error
+	)
+
+	// we need to find the lower bound
+	for lower == nil {
+		lower, err = s.State(ctx, lowerID)
+
+		if err != nil && !NotFound(err) {
+			return nil, nil, err
+		}
+
+		if lower != nil && !timestamp.After(lower.Timestamp) {
+			if lower.SeqNum+1 >= upper.SeqNum {
+				return lower, upper, nil // edge case if there are only two sequence numbers
+			}
+
+			// in our search for lower we found a new upper bound
+			upper = lower
+			lower = nil
+			lowerID = 1
+		}
+
+		if lower != nil {
+			break
+		}
+
+		// no lower yet, so try a higher id (binary search wise)
+		newID := (lowerID + upper.SeqNum) / 2
+		if newID <= lowerID {
+			// nothing suitable found, so upper is probably the best we can do
+			return upper, upper, nil
+		}
+		lowerID = newID
+	}
+
+	return lower, upper, nil
+}
+`,
+		Replace: `func findBound(ctx context.Context, s *stater, upper *State, timestamp time.Time) (lower, newUpper *State, err error) {
+	var lowerID uint64 = 1
+	newUpper = upper
+
+	// we need to find the lower bound
+	for lower == nil {
+		lower, err = s.State(ctx, lowerID)
+
+		if err != nil && !NotFound(err) {
+			return nil, nil, err
+		}
+		err = nil
+
+		if lower != nil && !timestamp.After(lower.Timestamp) {
+			if lower.SeqNum+1 >= newUpper.SeqNum {
+				return // edge case if there are only two sequence numbers
+			}
+
+			// in our search for lower we found a new upper bound
+			newUpper = lower
+			lower = nil
+			lowerID = 1
+		}
+
+		if lower != nil {
+			break
+		}
+
+		// no lower yet, so try a higher id (binary search wise)
+		newID := (lowerID + newUpper.SeqNum) / 2
+		if newID <= lowerID {
+			// nothing suitable found, so upper is probably the best we can do
+			lower = newUpper
+			return
+		}
+		lowerID = newID
+	}
+
+	return
+}
+`},
 }
